@@ -15,7 +15,7 @@ FACTS_FOR = {
     "C10": ["replicaWriteCounter", "increaseRevisionCounter", "getRevisionCounter", "guard_Replica_SetRevisionCounter", "verifyOrder"],
     "C11": ["cleanerActionLoop", "cleanerPreconditions", "cleanerConds", "cleanerSlices", "removeIndexShifts", "removeIndexBody", "removeIndexSnapIndx",
             "guard_Replica_PrepareRemoveDisk", "guard_Replica_RemoveDiffDisk"],
-    "C12": ["createDiskDupGuard", "chainTooLong", "liveChainTooLong", "guard_Replica_RemoveDiffDisk", "guard_Replica_PrepareRemoveDisk"],
+    "C12": ["order_RemoveDiffDisk", "order_ReplaceDisk", "createDiskDupGuard", "chainTooLong", "liveChainTooLong", "guard_Replica_RemoveDiffDisk", "guard_Replica_PrepareRemoveDisk"],
     "C13": ["locks_Snapshot", "locks_RemoveReplica", "locks_Revert", "snapshotRefusal", "checkpointCond", "checkpointBody", "removeReplicaTail"],
     "C14": ["actionsGated", "checkAction", "replicaActions", "routedActions", "verifyChainGuard", "verifySlices"],
     "C16": ["locks_Resize", "guard_Replica_Resize", "guard_Server_Resize"],
@@ -25,7 +25,7 @@ FACTS_FOR = {
             "guard_Server_ReadAt", "guard_Server_Sync", "guard_Server_Unmap", "guard_Server_Snapshot",
             "guard_Server_RemoveDiffDisk", "guard_Server_ReplaceDisk", "guard_Server_PrepareRemoveDisk", "guard_Server_Revert",
             "guard_Server_SetReplicaMode", "guard_Server_SetRevisionCounter", "guard_Server_SetCheckpoint", "guard_Server_Reload"],
-    "C08": ["createDiskVolMetaFailure", "revertDiskVolMetaFailure"],
+    "C08": ["order_RemoveDiffDisk", "order_ReplaceDisk", "createDiskVolMetaFailure", "revertDiskVolMetaFailure"],
     "C19": ["startOneOrder", "cloneReplicaOrder", "appCloneOrder", "cloneStatusOrder", "cloneStatusLoop", "updateCloneInfo"],
     "C18": ["locks_addReplica", "locks_RemoveReplica", "locks_SetReplicaMode", "locks_Start", "startOverRF", "startGuardBeforeReset", "startLoops", "buildReadWriters", "removeBackendTail", "canAdd", "addReplicaNoLockRechecks", "addReplicaOrder", "removeReplicaTail", "volStatusCounts"],
 }
@@ -115,7 +115,11 @@ PROPS = {
                                                               "quick": {"n": 16, "len": 18, "timeout": 600}, "thorough": {"n": 48, "len": 22, "timeout": 1200}})],
             "modelled": FS + ["profile cleaner (thorough tier; in the quick tier only as the search for a failing input when one of the cleaner's T1 facts no longer checks — one run takes a minute because sync.SnapshotDeletionInterval is a constant): the REAL sync.Task.InternalSnapshotCleaner runs one tick against the replica — a controller endpoint reporting the checkpoint, the real sync agent with the real sfold child for the coalesce step, which is made to fail in half of the runs; which snapshot it picked, the chain, flags, data and snapshot images afterwards are compared with the model (pick legal, mark / fold / unlink, or only the mark when the fold failed)"]},
     "C12": {"lean": ["JivaVerif.Properties.C12"],
-            "runs": [rep("mgmt", 480, 32, 6000, 45, 6)], "modelled": FS + [
+            "runs": [rep("mgmt", 480, 32, 6000, 45, 6),
+                     {"engine": "crashdiff", "profile": "all", "salt": 42, "workers": 16, "split": False, "search_for": ["order_RemoveDiffDisk", "order_ReplaceDisk", "createDiskDupGuard"],
+                      "quick": {"n": 2, "len": 0, "timeout": 600}, "thorough": {"n": 6, "len": 0, "timeout": 3000}}],
+            "modelled": FS + [
+                "the clause 'a failed operation leaves the chain as it was' under process death / a failing file-system call is C08's (crash model, crashdiff); crashdiff also runs for C12 in the thorough tier, and in the quick tier as the search for a failing input when the order of re-linking and unlinking in RemoveDiffDisk / ReplaceDisk (T1) no longer checks",
                 "modelled: one copy of the chain metadata; that the *.meta files and the in-memory tables stay equal is checked by the correspondence runs (chain, attributes, data after every request and after reopen), not proved"]},
     "C17": {"lean": ["JivaVerif.Properties.C17", "JivaVerif.Properties.Rest"],
             "runs": [rep("modes", 480, 32, 6000, 45, 7),
